@@ -173,6 +173,11 @@ def get_minimized_expr(op: str, params: Tuple[Expr, ...]) -> Expr:
     @return: the expression
     """
     if all(param.is_int() for param in params):
-        return Expr(op_string_to_function[op](*map(int, params)))
+        try:
+            return Expr(op_string_to_function[op](*map(int, params)))
+        except FlipJumpExprException:
+            raise
+        except Exception as e:
+            raise FlipJumpExprException(f'{repr(e)}. bad math operation ({op}): {str(Expr((op, params)))}.')
     else:
         return Expr((op, params))
